@@ -464,6 +464,11 @@ def _denominator(k, D):
             if s == SELF_NEXT and ki.term == ("p",) and flt == dead:
                 return True
             return "1 - `%s`" % ki.text()
+        if ki is not None and getattr(ki, "source", None) == SELF_NEXT and (ki.kind == "LAST" or (
+                ki.kind == "OTHER" and isinstance(ki.term, tuple) and ki.term[0] == "ite" and ki.term[3][0] == "acc" and ki.term[2] == ("p",))):
+            # `removed = p` where `removed += p` was meant: the mass of one dead successor only
+            return "1 - the probability of the LAST successor with `%s` (assigned, not accumulated): with two dead successors only one of them is taken off" % (
+                show(ki.term[1])[:60] if ki.kind == "OTHER" else show(ki.filter)[:60])
         ki2 = k.kfold(other)
         if ki2 is not None and ki2.kind == "SUM":
             return "1 + `%s`" % ki2.text()
@@ -820,6 +825,14 @@ def run(ctx, chk):
     r4_player_two(ctx, chk)
     r5_dispatch(ctx, chk)
     r6_monotone(ctx, chk)
+    # Player 1 is cut down to its reachability-optimal actions: if that list can be empty or miss an optimal action (an optimum
+    # taken at one precision and compared at another), live branches are removed
+    from . import C04
+    C04.r1_argsets(ctx, chk, "C03.pre:C04.1")
+    # a state may be cut off only when NOBODY points to it: a decision taken while the pointed-to set is still being collected
+    # in the same sweep misses the predecessors that are listed later
+    from . import C13
+    C13.r5_pruning_order(ctx, chk, "C03.4:C13.5")
     chk.require_instances("C03.1", 20)
     chk.require_instances("C03.2", 2)
     chk.require_instances("C03.3", 2)
